@@ -62,6 +62,23 @@ def ts_arg(ts):
             _MEM["mem2"] = (X[::2].copy(), y[::2].copy())
         X, y = _MEM[ts]
         return (X.copy(), y.copy())
+    if ts == "mem-invalid":
+        # a training set of the user's that also holds curves rated
+        # "-1 / invalid" (the rating GUI offers -1..10); here: 40 samples
+        # that look like the fitted long curve itself
+        if "mem-invalid" not in _MEM:
+            from nanite.rate.features import IndentationFeatures as IF
+            X, y = ts_arg("mem1")
+            idnt = DRIVERS["long_fitted"].fresh()
+            f = np.asarray(IF.compute_features(idnt, which_type="continuous"),
+                           dtype=float)
+            rs = np.random.RandomState(5)
+            Xi = f[None, :] * (1 + 0.01 * rs.standard_normal((40, f.size)))
+            ok = np.all(np.isfinite(Xi), axis=1)
+            _MEM["mem-invalid"] = (np.vstack([X, Xi[ok]]),
+                                   np.concatenate([y, -np.ones(ok.sum())]))
+        X, y = _MEM["mem-invalid"]
+        return (X.copy(), y.copy())
     if ts == "mem1-kept":
         # a caller who loads the training set once and hands the very same
         # tuple to every rating of one history
@@ -311,7 +328,9 @@ class LongFitted(Driver):
            rating_op("Extra Trees", "mem1"),
            rating_op("Extra Trees", "mem2"),
            rating_op("SVR (RBF kernel)", "mem1-kept"),
-           rating_op("Extra Trees", "mem1-kept")]
+           rating_op("Extra Trees", "mem1-kept"),
+           rating_op("Extra Trees", "mem-invalid"),
+           rating_op("Random Forest", "mem-invalid")]
 
     def fresh(self):
         idnt = super().fresh()
